@@ -18,6 +18,26 @@ use core::task::{Context, Poll, RawWaker, RawWakerVTable, Waker};
 use tokio::sync::mpsc;
 
 // ---------------------------------------------------------------------------------------
+// Property assertions.  penguin-mux is `#![no_std]`, so `assert!(c, "msg")` is core's macro and
+// Kani cannot show its message ("placeholder"); `kani::assert` keeps the text, which the driver
+// needs to tell a property violation ("P:...") from a panic of the code under test.
+// ---------------------------------------------------------------------------------------
+#[macro_export]
+macro_rules! vassert {
+    ($c:expr, $m:literal) => {
+        kani::assert($c, $m)
+    };
+}
+#[macro_export]
+macro_rules! vfail {
+    ($m:literal) => {{
+        kani::assert(false, $m);
+        kani::assume(false);
+        unreachable!()
+    }};
+}
+
+// ---------------------------------------------------------------------------------------
 // Wakers.  `counting_waker()` counts wake-ups in a static; clone/drop do nothing else.
 // ---------------------------------------------------------------------------------------
 pub static WAKES: AtomicUsize = AtomicUsize::new(0);
@@ -65,8 +85,6 @@ pub fn now_or_never<F: Future>(f: F) -> Option<F::Output> {
 // ---------------------------------------------------------------------------------------
 pub static SCHED_FIRE_AT: AtomicUsize = AtomicUsize::new(usize::MAX);
 pub static SCHED_FIRED: AtomicUsize = AtomicUsize::new(0);
-pub static SCHED_ACTION: std::sync::Mutex<Option<fn()>> = std::sync::Mutex::new(None);
-#[unsafe(no_mangle)]
 pub fn verif_sched_point(index: usize) {
     if index == SCHED_FIRE_AT.load(Ordering::Relaxed) {
         SCHED_FIRED.fetch_add(1, Ordering::Relaxed);
